@@ -104,6 +104,9 @@ func NewNet() *Net { return &Net{Latency: time.Millisecond} }
 
 // PacketConn is one endpoint address on the network.
 type PacketConn struct {
+	tail  *Dgram
+	qn    int
+	minAt time.Time
 	net    *Net
 	la     Addr
 	dir    int // direction tag of datagrams sent from here
@@ -147,13 +150,9 @@ func (p *PacketConn) due() bool {
 	if p.closed {
 		return true
 	}
-	now := vs.Now()
-	for d := p.q; d != nil; d = d.next {
-		if !d.gone && !d.At.After(now) {
-			return true
-		}
-	}
-	return false
+	// minAt is the earliest arrival time among the queued datagrams (kept by enqueue / ReadFrom), so that a
+	// queue of many datagrams that are all still in flight costs nothing to poll
+	return p.qn > 0 && !p.minAt.After(vs.Now())
 }
 
 //go:norace
@@ -179,9 +178,20 @@ func (p *PacketConn) ReadFrom(b []byte) (int, net.Addr, error) {
 		}
 	}
 	best.gone = true
+	p.qn--
 	// unlink consumed prefix
 	for p.q != nil && p.q.gone {
 		p.q = p.q.next
+	}
+	if p.q == nil {
+		p.tail = nil
+	}
+	p.minAt = time.Time{}
+	first := true
+	for d := p.q; d != nil; d = d.next {
+		if !d.gone && (first || d.At.Before(p.minAt)) {
+			p.minAt, first = d.At, false
+		}
 	}
 	n := len(best.Data)
 	if n > len(b) {
@@ -195,14 +205,15 @@ func (p *PacketConn) ReadFrom(b []byte) (int, net.Addr, error) {
 func (p *PacketConn) enqueue(d *Dgram) {
 	d.next = nil
 	if p.q == nil {
-		p.q = d
+		p.q, p.tail = d, d
 	} else {
-		t := p.q
-		for t.next != nil {
-			t = t.next
-		}
-		t.next = d
+		p.tail.next = d
+		p.tail = d
 	}
+	if p.qn == 0 || d.At.Before(p.minAt) {
+		p.minAt = d.At
+	}
+	p.qn++
 	vs.WakeAt(d.At)
 }
 
